@@ -504,9 +504,22 @@ void vf_harness(void) {
             qtreetbl_obj_t c;
             memset(&c, 0, sizeof(c));
             size_t cnt = 0;
+            bool retried = false;
             for (size_t s = 0; s < MM + 1; s++) {
                 bool more;
+                errno = 0;
                 CALL(more = t->getnext(t, &c, nm));
+#if VF_AF
+                if (!more && errno == ENOMEM && !retried) {
+                    /* a step refused for lack of memory must not have consumed the key: the same cursor, retried once memory is
+                     * available again, continues the walk at the same position (qtreetbl.c: "not stamped yet, so this key is
+                     * returned by a retry") - i.e. the failed call left the traversal bookkeeping of the container unchanged */
+                    retried = true;
+                    vf_failmask = 0; vf_fail_from = -1;
+                    CALL(more = t->getnext(t, &c, nm));
+                    VF_ASSERT(more == (cnt < imn), "C15.tree.walk.retry: after a step failed with ENOMEM a retry with the same cursor continues the walk (the failed step consumed no key)");
+                }
+#endif
                 if (!more) break;
                 VF_ASSERT(c.name != NULL && (c.data != NULL || c.datasize == 0), "C15.tree.walk.copies: a walk step that returns true delivers its copies (allocation failure is reported, not hidden)");
                 VF_ASSERT(cnt < imn, "C03.walk.count: the walk returns no more results than there are keys");
@@ -518,6 +531,10 @@ void vf_harness(void) {
                 cnt++;
             }
             if (!vf_alloc_failed) VF_ASSERT(cnt == imn, "C03.walk.complete: the walk returns every stored key and then reports the end");
+#if VF_AF
+            if (retried && vf_failmask == 0 && vf_fail_from < 0 && round == 0)
+                VF_ASSERT(cnt == imn, "C15.tree.walk.retry.complete: a walk that was retried after one ENOMEM step still returns every stored key exactly once");
+#endif
             VF_ASSERT(tid_inv(t), "C03.inv.walk: a complete walk preserves the traversal invariant");
         }
         VF_ASSERT(tree_matches(t), "C03.walk.pure: walking does not change keys, values or count");
